@@ -320,6 +320,24 @@ func directedCases() []struct {
 			}
 		}
 	}
+	// the pipelined opcodes with a destination that is never a source (and a source that is never a
+	// destination): what OnlyDestRegs / OnlySrcRegs prune differs per operand position.  Three lengths,
+	// so that every flag combination (a function of the program text) is taken under hdldiropt
+	for _, op := range []string{"addp", "multp", "divp"} {
+		for pad := 0; pad < 3; pad++ {
+			s := archSpec{mode: "ha", rsize: 8, r: 2, o: 4, ops: []string{"j", "nop", op, "rset"}}
+			sort.Strings(s.ops)
+			src := []string{"rset r0 200", "rset r1 7", op + " r0 r1", "rset r3 3", op + " r0 r3"}
+			for k := 0; k < pad; k++ {
+				src = append(src, "nop")
+			}
+			src = append(src, "j 0")
+			res = append(res, struct {
+				s   archSpec
+				src []string
+			}{s, src})
+		}
+	}
 	// ro2rri reading the last cell of a ROM that is exactly full (program + data = 2^O cells)
 	for _, o := range []int{3, 4} {
 		s := archSpec{mode: "ha", rsize: 8, r: 1, o: o, ops: []string{"inc", "j", "ro2rri", "rset"}}
